@@ -243,7 +243,7 @@ struct item
   bool moved;
 };
 
-template <class T> struct custom_collect : std::false_type // specialised for records in C05_record_tuple_array.cpp
+template <class T> struct custom_collect : std::false_type // specialised for records in C05_record_collect.hpp
 {
 };
 
@@ -648,8 +648,10 @@ void register_algorithm_container_shards();
 void register_grid_tree_shards();
 void register_optional_shards();
 void register_either_variant_shards();
-void register_record_tuple_array_shards();
-void register_options_parse_shards();
+void register_record_tuple_shards();
+void register_array_shards();
+void register_options_shards();
+void register_parse_shards();
 }
 
 namespace std
